@@ -330,10 +330,13 @@ class ObjWorld(Run):
     def snapshot_all(self):
         return {name: snap(s.obj, s.kind) for name, s in self.slots.items()}
 
-    def frame_check(self, pre, writes, ctx, involved=()):
+    def frame_check(self, pre, writes, ctx, involved=(), structural=False):
         wroots = set()
         for w in writes:
-            if w in self.slots:
+            if w in self.slots and not structural:
+                # `structural` operations (take, compose) only re-arrange the receiver's own
+                # layer lists: they cannot legitimately write through shared gates or arrays,
+                # so nothing else may change, aliased or not
                 wroots |= self.slots[w].roots
         for name, before in pre.items():
             s = self.slots.get(name)
@@ -529,7 +532,7 @@ class ObjWorld(Run):
         n = self.n
         which = rng.choice(["rotate", "rotate", "transform", "transform", "measure", "measure", "postselect",
                             "embed", "gate_apply", "gate_apply", "layer_apply", "circuit_apply",
-                            "compile", "take", "compose", "set_map", "set_r"])
+                            "compile", "take", "take", "take", "compose", "compose", "set_map", "set_r"])
         op = {"op": "inplace", "which": which, "entropy": new_entropy(rng)}
         vals = self.by_kind("pauli", "list", "poly", "map", "state", "mono", N=n)
         if which == "rotate":
@@ -606,14 +609,17 @@ class ObjWorld(Run):
             gs = self.by_kind("gate")
             if not cs or not gs:
                 return None
-            op["recv"] = rng.choice(cs)
+            # bias toward circuits that were just composed / copied: a structural mutation right
+            # after the call is what exposes structure shared between two circuits
+            op["recv"] = self._biased_pick(rng, cs)
             op["arg"] = self._biased_pick(rng, gs)
             return op
         if which == "compose":
             cs = self.by_kind("circuit")
             if len(cs) < 2:
                 return None
-            op["recv"], op["arg"] = rng.sample(cs, 2)
+            op["recv"] = self._biased_pick(rng, cs)
+            op["arg"] = rng.choice([c for c in cs if c != op["recv"]])
             return op
         if which == "set_map":
             gs = self.by_kind("gate")
@@ -1084,7 +1090,8 @@ class ObjWorld(Run):
                 if y is not recv and shares(y.obj, y.kind, recv.obj, recv.kind):
                     y.roots |= recv.roots
         self.stats["inplace:" + which] += 1
-        self.frame_check(pre, writes, "inplace:" + which, involved={op.get(k) for k in ("recv", "arg", "unit")})
+        self.frame_check(pre, writes, "inplace:" + which, involved={op.get(k) for k in ("recv", "arg", "unit")},
+                         structural=which in ("take", "compose"))
         self.nontrivial = True
         self.trans.add(hash(("ip", which, recv.kind, arg.kind if arg else None)) & 0xFFFFFFFFFFFF)
         return which
